@@ -5,15 +5,34 @@
 use std::io::{BufRead, Write};
 use std::panic::{AssertUnwindSafe, catch_unwind};
 
-mod util;
 mod drv_codec;
+mod drv_conc;
+mod drv_http;
+mod drv_misc;
+mod drv_padding;
+mod drv_parsers;
+mod drv_session;
+mod drv_timed;
+mod transport;
+mod util;
 
 fn dispatch(drv: &str, args: &[&str]) -> String {
-    match drv {
-        "enc" => drv_codec::enc(args),
-        "dec" => drv_codec::dec(args),
-        _ => format!("UNKNOWN-DRIVER {}", drv),
+    let packages: [fn(&str, &[&str]) -> Option<String>; 8] = [
+        drv_codec::dispatch,
+        drv_padding::dispatch,
+        drv_parsers::dispatch,
+        drv_http::dispatch,
+        drv_timed::dispatch,
+        drv_session::dispatch,
+        drv_conc::dispatch,
+        drv_misc::dispatch,
+    ];
+    for p in packages {
+        if let Some(s) = p(drv, args) {
+            return s;
+        }
     }
+    format!("UNKNOWN-DRIVER {}", drv)
 }
 
 fn main() {
